@@ -240,7 +240,20 @@ def main(a):
         printed.add(key)
         print("KNOWN-FINDING: property=%s %s" % (prop, f.get("what")))
     vio_lines = []
+    # replay (native re-execution) a bounded sample: at most 2 per (contract, clause) group and 12 in total;
+    # the others are listed in the evidence and share the group's replay
+    groups = {}
+    reported = []
     for rec in violations:
+        gk = (rec.get("contract") or rec.get("key") or rec["id"], rec.get("clause"))
+        groups.setdefault(gk, []).append(rec)
+    for gk, recs in groups.items():
+        for rec in recs[:2]:
+            if len(reported) < 12:
+                reported.append(rec)
+    if violations and not reported:
+        reported = violations[:1]
+    for rec in reported:
         path, reproduced = write_replay(prop, rec, src)
         line = "VIOLATION property=%s replay=%s" % (prop, path)
         if not reproduced:
